@@ -1876,7 +1876,10 @@ void eval_instruction (const char *p) {
                 {
                   if (!(sp--)->u.number)
                     error ("*Division by zero.");
-                  sp->u.number /= (sp + 1)->u.number;
+                  if ((sp + 1)->u.number == -1)	/* INT64_MIN / -1 traps in hardware; negate with wrap-around */
+                    sp->u.number = (int64_t) (0 - (uint64_t) sp->u.number);
+                  else
+                    sp->u.number /= (sp + 1)->u.number;
                   break;
                 }
 
@@ -2197,7 +2200,10 @@ void eval_instruction (const char *p) {
             CHECK_TYPES (sp, T_NUMBER, 2, instruction);
             if ((sp--)->u.number == 0)
               error ("*Modulus by zero.");
-            sp->u.number %= (sp + 1)->u.number;
+            if ((sp + 1)->u.number == -1)	/* INT64_MIN % -1 traps in hardware; the remainder is always 0 */
+              sp->u.number = 0;
+            else
+              sp->u.number %= (sp + 1)->u.number;
           }
           break;
         case F_MOD_EQ:
